@@ -308,3 +308,12 @@ func (c *cluster) heads(name string) []int {
 	sort.Ints(out)
 	return out
 }
+
+// mark records what the harness is about to do, so that the check driver can
+// attribute a crash of this process (a panic in a goroutine of the code under
+// test) to the case that caused it.
+func mark(format string, a ...interface{}) {
+	if p := os.Getenv("VH_MARKER"); p != "" {
+		_ = os.WriteFile(p, []byte(fmt.Sprintf(format, a...)), 0o644)
+	}
+}
